@@ -269,12 +269,12 @@ def check_one(ctx, impl, case):
                 stray = [k for k in range(len(before)) if (before[k] ^ after[k]) & ~own.get(k, 0) & 0xff]
                 ctx.require(not stray, f"{nm} path changed bytes/bits that belong to no written variable", case, f"offsets {stray}", "own-bytes")
     changed = ref is not None and (ref[0] != pyframe or any(o["op"] == "get" for o in case["ops"]))
-    kinds = "+".join(sorted({opkind(case, lay, o) for o in case["ops"]}))
+    kinds = sorted(opkind(case, lay, o) for o in case["ops"])
     return fmt_line(real_st, [a for _, a in real_fa], pyout, pyvals, fastout, fastvals), pyframe, ref is not None, changed, kinds
 
 
 def opkind(case, lay, o):
-    cls = lambda vi: "bit" if isinstance(lay["res"][vi][2], int) else "var"
+    cls = lambda vi: "bit" if isinstance(lay["res"][vi][2], int) else "var:" + lay["res"][vi][2]
     if o["op"] == "get":
         return f"dv={cls(o['src'])}"
     k, x = o["src"]
@@ -486,7 +486,7 @@ def model_line(case, lay, pyframe):
 def run(ctx):
     impl = Impl()
     cases, outs, lines = [], [], []
-    nconf = ctx.n(700, 30000)
+    nconf = ctx.n(1200, 25000)
     for _ in range(nconf):
         cfg = None
         while cfg is None:
@@ -494,7 +494,16 @@ def run(ctx):
         for _ in range(ctx.rng.choice([1, 2, 4])):
             case = gen_contents(ctx.rng, cfg)
             out, pyframe, indomain, changed, kinds = check_one(ctx, impl, case)
-            ctx.case(case, nontrivial=changed, kind=("in:" if indomain else "unrepresentable:") + kinds)
+            ctx.case(case, nontrivial=changed, kind="representable" if indomain else "unrepresentable")
+            for k in kinds:                      # distribution: statement kinds, formats, layout features
+                a, b = k.split("=")
+                ctx.stats["stmt:" + a.split(":")[0] + "=" + b.split(":")[0]] += 1
+                for side, x in (("dst", a), ("src", b)):
+                    if ":" in x:
+                        ctx.stats[f"{side}-fmt:{x.split(':')[1]}"] += 1
+            ctx.stats["struct-vars"] += sum(v["struct"] is not None for v in case["vars"])
+            ctx.stats["fmmu-terminals"] += sum(t["fmmu"] for t in case["terms"])
+            ctx.stats["devices:%d" % (1 + max(o["dev"] for o in case["ops"]))] += 1
             cases.append(case)
             outs.append(out)
             lines.append(model_line(case, layout(case), pyframe))
@@ -507,7 +516,7 @@ def run(ctx):
 
 def replay(ctx, case):
     out, pyframe, indomain, changed, kinds = check_one(ctx, Impl(), case)
-    return {"result": out, "representable": indomain, "kinds": kinds}
+    return {"result": out, "representable": indomain, "statements": kinds}
 
 
 LEVEL_TEXT = ("Lean 4 proof over a hand-written model of both paths: for all frames, offsets, formats B H I Q b h i q and bit numbers 0..7 and all "
